@@ -8,16 +8,9 @@ from props import _lay, _fetch
 
 LEVEL = "proof"
 MODULE = "Phil.Props.C16"
-LEVEL_TEXT = ("Lean theorems: every top-level function of the parser model is total (structural recursion / fuel adequate for the "
-              "input length), and the outcome of the tokenizer/parser model is never a `stray` exception class (the only error "
-              "constructors reachable are RuntimeError sites). Completeness of the model's list of error sites for the Python "
-              "code cannot be proved; it is checked by the correspondence run on a malformed stream (token soup, mutations), "
-              "where any exception class other than the model's outcome is a disagreement. The oracle runs parse, the argument "
-              "interpreter, fetch/extract/validate for every built-in type on hostile texts and accepts only success, "
-              "RuntimeError or Sorry, with a wall-clock bound per call.")
-LEVEL_NOTE = ("proof for the model half, translation-validation in spirit for the exception-class half; eval() of value "
-              "expressions is CPython's (value grammar excludes exponent towers).")
-TECHNIQUE = "Lean 4 totality/no-stray theorems on the model + differential correspondence on a malformed stream + exception-class oracle"
+LEVEL_TEXT = "Lean theorems: every top-level function of the parser model is total, and the outcome of tokenizer / parser / attribute conversion / converters / argument interpreter is never a `stray` exception class (processArg_no_stray, asWords_stray_iff); for fetch + extract the list of stray sites is proved exhaustive for the model (fetchRoot_stray_sites: ten sites, each with a smallest input replayed on Python, all through ill-formed masters) and fetch/extract on tree masters only refuse with 'incompatible' or a converter's RuntimeError (fetch_tree_no_stray, extract_tree_no_stray). That the model has every error site of the code is checked by the correspondence run on a malformed stream, where any other exception class is a disagreement. The oracle runs parse, the argument interpreter (fresh interpreter per argument as well as reused), fetch/extract/validate for every built-in type on hostile texts and accepts only success, RuntimeError or Sorry, with a time bound per call."
+LEVEL_NOTE = "proof for the model half, correspondence for the exception-class completeness half; eval() of value expressions is CPython's."
+TECHNIQUE = 'Lean 4 totality/no-stray theorems on the model + differential correspondence on a malformed stream + exception-class oracle'
 RULE = ("PHIL-biased token soup, mutated valid documents (parse), name=value soups (argument interpreter), value texts incl. "
         "inf/nan/1e999/empty brackets/unbalanced parentheses for every built-in type with constructor arguments (fetch, extract, "
         "validate), attribute texts; non-trivial = the call raised or the text has > 3 tokens; distinct = (stream, text)")
